@@ -170,6 +170,8 @@ def parse_obs(txt):
 
 def run_one(exe, mmodel, script_text, workdir, idx, timeout=120):
     p = os.path.join(workdir, "s%d.script" % idx)
+    for old in glob.glob(p + ".x*"):
+        os.remove(old)                       # exchange files of an earlier run
     with open(p, "w") as f:
         f.write(script_text)
     ri = subprocess.run(["timeout", str(timeout), exe, p], capture_output=True, text=True, errors="replace")
@@ -410,7 +412,7 @@ def main():
             sig = props.signature(pid, small, ds2)
             rp = os.path.join(VERIF, "replay", "%s-%s.json" % (pid, hashlib.md5(small.encode()).hexdigest()[:10]))
             json.dump(dict(property=pid, seed=seed, case=nm, script=small, disagreements=ds2,
-                           signature=sig,
+                           signature=sig, original_script=txt, original_disagreements=ds[:3],
                            explanation="implementation and extracted Coq model (or a property predicate "
                                        "evaluated on the implementation's own output) disagree on this script"),
                       open(rp, "w"), indent=1)
